@@ -49,6 +49,20 @@ func (tw *trimWriter) TrimRight() {
 	tw.trim = true
 }
 
+// BeginExact and EndExact bracket output that is not literal template text — a
+// value printed by an object, the body of a raw block. Whitespace control
+// leaves it alone: a pending right trim has no text to trim, and a later left
+// trim does not reach back into it.
+func (tw *trimWriter) BeginExact() {
+	tw.trim = false
+}
+
+// EndExact ends what BeginExact began.
+func (tw *trimWriter) EndExact() error {
+	_, err := tw.Flush()
+	return err
+}
+
 // Flush flushes the current buffer into w.
 func (tw *trimWriter) Flush() (int, error) {
 	if tw.buf.Len() > 0 {
